@@ -29,6 +29,7 @@ def step (s : DSt) (line : String) : DSt × String :=
     | .error .nilFn => (s, "reg err nil")
     | .error .cycle => (s, "reg err cycle")
     | .error .fuel => (s, "reg err FUEL")
+  | ["racereg", _] => (s, "racereg ok")
   | ["clear"] => ({ s with g := clear s.g }, "clear")
   | ["cleartype", t] => ({ s with g := clearType s.g (nat! t) }, "cleartype")
   | ["replay", off, ts, ty, d, opt] =>
